@@ -292,6 +292,15 @@ def _short(attrs):
     return {k: v for k, v in attrs.items() if k in ("msg.kwargs", "exit_status", "reason")}
 
 
+def _rejected_terminator(obs):
+    for r in obs.foreign:
+        if r["label"] in ("abort", "halt") and r.get("state") == "raised":
+            e = r.get("exception")
+            if type(e).__name__ == "TransitionError" and "already idle" not in str(e):
+                return True
+    return False
+
+
 def _failed_call(obs):
     from bluesky.utils import RunEngineInterrupted
 
@@ -314,7 +323,11 @@ def _features(case, obs, mdl, starts, stops):
         # with a close_run message, the plan ran to its normal return although the request was accepted, or the
         # plan's cleanup failed with an ordinary exception (RE(...) raised something else than RunEngineInterrupted)
         abort_span_class=(
-            "none"
+            # abort()/halt() raised TransitionError (e.g. while stopping) -- after _abort_coro/_halt_coro had already
+            # ended the spans
+            "abort_rejected_after_ending_spans"
+            if not (term & {"abort", "halt"}) and _rejected_terminator(obs)
+            else "none"
             if not (term & {"abort", "halt"})
             else "closed_by_message_after_abort"
             if mdl["closed_by_message_after_abort"]
